@@ -52,6 +52,25 @@ pub fn gen_case(seed: u64, idx: u64) -> c01::Case {
             descriptions: false,
         };
         case.set = genomes::gen_sample_set(&mut rng, &o);
+        // exact inverted and exact plain copies of the first sample: the same stored segments are
+        // then referenced in both orientations (empty LZ deltas reuse in-group id 0)
+        if rng.chance(1, 2) {
+            let first = case.set.samples[0].clone();
+            for (tag, inv) in [("inv", true), ("cpy", false)] {
+                let name = if o.pansn { format!("z{tag}#1") } else { format!("z{tag}") };
+                let contigs = first
+                    .contigs
+                    .iter()
+                    .enumerate()
+                    .map(|(i, (_, seq))| {
+                        let h = if o.pansn { format!("z{tag}#1#c{i}") } else { format!("z{tag}_c{i}") };
+                        (h, if inv { genomes::revcomp_letters(seq) } else { seq.clone() })
+                    })
+                    .collect();
+                case.set.samples.push(genomes::Sample { name, contigs });
+            }
+            case.desc["c07_inverted_copy"] = json!(true);
+        }
         case.desc["params"] = case.params.to_json();
         case.desc["gen"] = json!(format!("{:?}", o));
         case.desc["c07_variant"] = json!("dense");
@@ -500,10 +519,66 @@ pub fn run_case(workdir: &str, seed: u64, model: &mut Option<Model>, rep: &mut R
                         check_contig(model, rep, &mut d, &case.desc, case.params.k, &s, &c, exhaustive_max, max_junctions, seed, cidx);
                     }
                 }
+                interleaved_queries(rep, &mut d, &case.desc, seed);
             }
         },
     }
     let _ = std::fs::remove_dir_all(&dir);
+}
+
+/// Range queries ALTERNATING between contigs (of different samples) on the same handle: the answer
+/// for a contig must not depend on which contig was queried just before (contigs can share stored
+/// segments, also in opposite orientations).
+fn interleaved_queries(rep: &mut Report, d: &mut ragc_core::Decompressor, desc: &serde_json::Value, seed: u64) {
+    let mut all: Vec<(String, String, Vec<u8>)> = vec![];
+    for s in d.list_samples() {
+        if let Ok(Ok(cs)) = guarded(|| d.get_sample(&s)) {
+            for (c, data) in cs {
+                if !data.is_empty() {
+                    all.push((s.clone(), c, data));
+                }
+            }
+        }
+    }
+    if all.len() < 2 {
+        return;
+    }
+    let mut rng = Rng::new(seed, 207, all.len() as u64);
+    let rounds = 400.min(40 * all.len());
+    let mut prev = usize::MAX;
+    for _ in 0..rounds {
+        // prefer switching between contigs of equal length (copies / inverted copies)
+        let mut i = rng.below(all.len() as u64) as usize;
+        if prev != usize::MAX && rng.chance(2, 3) {
+            let same: Vec<usize> = (0..all.len()).filter(|&j| j != prev && all[j].2.len() == all[prev].2.len()).collect();
+            if !same.is_empty() {
+                i = *rng.pick(&same);
+            }
+        }
+        let (s, c, full) = &all[i];
+        let len = full.len();
+        let a = rng.below(len as u64) as usize;
+        let b = (a + 1 + rng.below(((len - a) as u64).min(200)) as usize).min(len);
+        rep.count("interleaved_queries");
+        match guarded(|| d.get_contig_range(s, c, a, b)) {
+            Ok(Ok(got)) => {
+                if got != full[a..b] {
+                    let case = json!({"case": desc, "sample": s, "contig": c, "start": a, "end": b, "after": if prev == usize::MAX { json!(null) } else { json!([all[prev].0, all[prev].1]) }});
+                    rep.oracle_fail("range-slice-interleaved", &format!("get_contig_range({s},{c},{a},{b}) issued after a query on another contig differs from the slice of the full contig: {}", c01::first_diff(&full[a..b], &got)), case);
+                    return;
+                }
+            }
+            Ok(Err(e)) => {
+                rep.oracle_fail("range-error", &format!("get_contig_range({s},{c},{a},{b}) failed: {e:#}"), json!({"case": desc}));
+                return;
+            }
+            Err(p) => {
+                rep.oracle_fail("range-panic", &format!("get_contig_range({s},{c},{a},{b}) panicked: {p}"), json!({"case": desc}));
+                return;
+            }
+        }
+        prev = i;
+    }
 }
 
 pub fn run(ctx: &mut Ctx) -> Report {
